@@ -111,6 +111,55 @@ def unit_should_break_and_actions() -> Dict[str, Any]:
     return finish_unit(eng, extra)
 
 
+def unit_breakpoint_table() -> Dict[str, Any]:
+    """get_breakpoints: the breakpoint table's key set is EXACTLY the given addresses, the addresses of the given
+    labels that exist, and the addresses of the labels containing a given substring - for arbitrary (symbolic)
+    addresses, so address 0 and colliding addresses are included; every label stored as a value labels its key.
+    Label NAMES are concrete per instantiation (string tests are evaluated by CPython), interned as integers."""
+    B, _ = _mods()
+
+    class Interning(IntMath):
+        def __init__(self):
+            super().__init__()
+            self.ids: Dict[str, int] = {}
+
+        def lift(self, x):
+            if x is None:
+                return z3.IntVal(-1)
+            if isinstance(x, str):
+                return z3.IntVal(1000 + self.ids.setdefault(x, len(self.ids)))
+            return super().lift(x)
+
+    extra: List[Obl] = []
+    eng = Engine(Interning(), name='get_breakpoints')
+    eng.inline |= {B.update_breakpoints_from_addresses_set, B.update_breakpoints_from_breakpoint_contains_set, B.update_breakpoints_from_breakpoint_set}
+    names = ['a', 'ab', 'b', 'xa', 'start']
+    label_sets = [None, [], ['a'], ['b', 'missing'], ['start', 'ab', 'a'], ['nothere']]
+    contains_sets = [None, [], ['a'], ['x', 'st'], ['zzz'], ['']]
+    addr_sets = [None, [], ['p'], ['p', 'q']]
+    k = z3.Int('k')
+    for li, labels in enumerate(label_sets):
+        for ci, contains in enumerate(contains_sets):
+            for ai, addrs in enumerate(addr_sets):
+                T = eng.T
+                A = {nm: z3.Int(f'addr_{nm}') for nm in names}
+                pq = {'p': z3.Int('p'), 'q': z3.Int('q')}
+                st = State()
+                outs = eng.run_function(B.get_breakpoints, st, [None if addrs is None else [pq[x] for x in addrs], labels, contains, dict(A)])
+                tag = f'get_breakpoints[labels{li},contains{ci},addresses{ai}]'
+                want_keys = [pq[x] for x in (addrs or [])] + [A[l] for l in (labels or []) if l in A] + [A[l] for l in names if any(c in l for c in (contains or []))]
+                for i, (s, sig) in enumerate(outs):
+                    if not (isinstance(sig, tuple) and sig[0] == 'return' and isinstance(sig[1], Ref)):
+                        extra.append(Obl(f'{tag}:path{i}.returns_a_table', list(s.pc), z3.BoolVal(False)))
+                        continue
+                    d = s.heap[sig[1].id]
+                    extra.append(Obl(f'{tag}:path{i}.keys_are_exactly_the_requested_addresses', list(s.pc), z3.ForAll([k], z3.Select(d.dom, k) == z3.Or([k == a for a in want_keys] + [z3.BoolVal(False)]))))
+                    lab_of = lambda v: z3.Or([z3.And(v == 1000 + T.ids.setdefault(nm, len(T.ids)), A[nm] == k) for nm in names])
+                    extra.append(Obl(f'{tag}:path{i}.a_stored_label_labels_its_address', list(s.pc), z3.ForAll([k], z3.Implies(z3.Select(d.dom, k), z3.Or(z3.Select(d.val, k) == -1, lab_of(z3.Select(d.val, k)))))))
+                    extra.append(Obl(f'{tag}:path{i}.cover', list(s.pc), z3.BoolVal(True), kind='cover'))
+    return finish_unit(eng, extra)
+
+
 def unit_frame() -> Dict[str, Any]:
     """nothing reachable from handle_breakpoint stores through mem / statistics / the device or calls a mutator"""
     B, FR = _mods()
@@ -355,10 +404,10 @@ def bounded(rep: Report, tier: str, seed: int) -> None:
 def body(tier: str, seed: int) -> int:
     rep = Report(PROP, 'quick' if tier.startswith('replay') else tier, seed, 'proof', f'./check {PROP} --tier {tier}')
     B, FR = _mods()
-    jobs: List[tuple] = [(unit_should_break_and_actions, ()), (unit_frame, ())]
+    jobs: List[tuple] = [(unit_should_break_and_actions, ()), (unit_frame, ()), (unit_breakpoint_table, ())]
     jobs += [(unit_featured_with_handler, (w,)) for w in ((8,) if tier != 'thorough' else C01py.WIDTHS)]
     run_and_discharge(rep, jobs)
-    for f in (B.BreakpointHandler.should_break, B.BreakpointHandler.apply_debug_action, B.handle_breakpoint, FR._run_featured):
+    for f in (B.BreakpointHandler.should_break, B.BreakpointHandler.apply_debug_action, B.handle_breakpoint, FR._run_featured, B.get_breakpoints, B.update_breakpoints_from_addresses_set, B.update_breakpoints_from_breakpoint_contains_set, B.update_breakpoints_from_breakpoint_set):
         rep.add_function(f.__module__, f.__qualname__, Engine.func_lines(f))
     rep.add_function('flipjump.interpreter.debugging.breakpoints', 'query_user_for_debug_action, get_breakpoint_message_body, handle_read_memory, show_memory_address, calculate_variable_value, handle_read_f_j', '', 'frame (read-only) obligations on their AST; behaviour bounded')
     rep.assume('[A] query_user_for_debug_action returns one of (step|skip N>0|continue|continue_all|exit): its command parsing (string handling) is exercised by the scripted sessions, not proved')
